@@ -39,13 +39,45 @@ class TlcResult:
         return out
 
 
-def run(module, cfg, env=None, workers=1, simulate=None, depth=None, seed=None, timeout=1800,
+def tla(x):
+    """Python value -> TLA+ expression (ints, strings, bools, lists = sequences, sets, dicts = records)"""
+    if isinstance(x, bool):
+        return "TRUE" if x else "FALSE"
+    if isinstance(x, int):
+        return str(x) if x >= 0 else "(%d)" % x
+    if isinstance(x, str):
+        return '"%s"' % x
+    if isinstance(x, (list, tuple)):
+        return "<<" + ", ".join(tla(v) for v in x) + ">>"
+    if isinstance(x, (set, frozenset)):
+        return "{" + ", ".join(tla(v) for v in sorted(x, key=repr)) + "}"
+    if isinstance(x, dict):
+        return "[" + ", ".join("%s |-> %s" % (k, tla(v)) for k, v in x.items()) + "]"
+    raise TypeError(x)
+
+
+def run(module, cfg, consts=None, env=None, workers=1, simulate=None, depth=None, seed=None, timeout=1800,
         coverage=False, deadlock=False, heap="4g", dfs=False, extra=()):
     """module: name of a module in /verif/spec; cfg: text of the configuration file."""
     _n[0] += 1
     work = scratch() / ("tlc%d" % _n[0])
     work.mkdir()
-    cfgp = work / (module + ".cfg")
+    if consts:
+        # constants that a .cfg cannot express (sequences, negative numbers): wrapper module MC_<module>
+        mc = "MC_" + module
+        body = "---- MODULE %s ----\nEXTENDS %s\n" % (mc, module)
+        cfg = cfg.rstrip("\n") + "\nCONSTANTS\n"
+        for k, v in consts.items():
+            # a string starting with "@" is a raw TLA+ expression
+            body += "MC_%s == %s\n" % (k, v[1:] if isinstance(v, str) and v.startswith("@") else tla(v))
+            cfg += " %s <- MC_%s\n" % (k, k)
+        (work / (mc + ".tla")).write_text(body + "====\n")
+        main = work / (mc + ".tla")
+        module_for_cfg = mc
+    else:
+        main = SPEC / (module + ".tla")
+        module_for_cfg = module
+    cfgp = work / (module_for_cfg + ".cfg")
     cfgp.write_text(cfg)
     cmd = ["java", "-XX:+UseParallelGC", "-Xmx" + heap, "-DTLA-Library=" + str(SPEC)]
     if dfs:
@@ -63,7 +95,7 @@ def run(module, cfg, env=None, workers=1, simulate=None, depth=None, seed=None, 
     if seed is not None:
         cmd += ["-seed", str(seed)]
     cmd += list(extra)
-    cmd.append(str(SPEC / (module + ".tla")))
+    cmd.append(str(main))
     e = dict(os.environ)
     e.pop("JAVA_TOOL_OPTIONS", None)
     if env:
